@@ -918,6 +918,20 @@ def check_flag_pair(ctx, label, res_off, res_on) -> None:
         ctx.oracle_failure("C09", f"python modules recoverable from the stubs differ between the settings: "
                                   f"{sorted(set(off) ^ set(on))[:4]}", base)
         return
+    import stage_names
+    for mod, lst in on.items():
+        segs = mod.split(".")
+        if not all(stage_names.convertible(seg) or seg == "_" for seg in segs):
+            continue
+        want = ".".join(stage_names.spec_camel(seg, False) for seg in segs)
+        for path, sf in lst:
+            if sf.package != want:
+                ctx.oracle_failure("C09", f"{path}: the package of python module {mod!r} is rendered {sf.package!r}; its segments "
+                                          f"in lowerCamelCase are {want!r}", {**base, "path": path, "module": mod})
+            if (sf.python_module is not None) != (want != mod):
+                ctx.oracle_failure("C09", f"{path}: Python-module annotation {'present' if sf.python_module is not None else 'absent'} "
+                                          f"although the rendered package path {'equals' if want == mod else 'differs from'} {mod!r}",
+                                   {**base, "path": path, "module": mod})
     for mod in off:
         sk_off = sorted(repr([skeleton(d) for d in sf.decls]) for _, sf in off[mod])
         sk_on = sorted(repr([skeleton(d) for d in sf.decls]) for _, sf in on[mod])
